@@ -96,6 +96,7 @@ int valid_object(object ob) { if (file_name(ob) == VALID_OBJECT_DENY) { rec("VET
 #else
 int valid_object(object ob) { return 1; }
 #endif
+int valid_save_binary(string file) { rec("VSB " + file); return 1; }
 mapping regnames;
 void regname(string t, string n) { if (!regnames) regnames = ([ ]); regnames[t] = n; }
 mapping query_regnames() { return regnames ? regnames : ([ ]); }
